@@ -144,6 +144,51 @@ def mutators(S):
         lambda L, v: setattr(L.beam, 'models', [S.beam_model(m) for m in v]), setc(B, 'models'))
     reg('beam.models.add', lambda r, c: r.choice([('bcx', ('C', 5, (8, 7))), ('bem', ('D', 0, (3, 2)))]),
         lambda L, v: L.beam.models.add(S.beam_model(v)), lambda cfg, v: cfg[B]['models'].append(v))
+    # line of an attached beam model (public setter on BeamCXLine / BeamEmissionLine)
+    def _line_gen(kind, pool):
+        def g(r, c):
+            ms = c[B]['models']
+            idx = [i for i, m in enumerate(ms) if m[0] == kind]
+            if not idx:
+                return None
+            i = idx[0]
+            cur = ms[i][1]
+            cand = [l for l in pool if (l[0], l[1], tuple(l[2])) != (cur[0], cur[1], tuple(cur[2]))]
+            return (i, r.choice(cand))
+        return g
+
+    def _line_act(L, v):
+        list(L.beam.models)[v[0]].line = S.line_of(v[1])
+
+    def _line_upd(cfg, v):
+        m = list(cfg[B]['models'][v[0]])
+        m[1] = v[1]
+        cfg[B]['models'][v[0]] = tuple(m)
+    reg('beam.model(bcx).line', _line_gen('bcx', [('C', 5, (8, 7)), ('C', 5, (7, 6)), ('Ne', 9, (11, 10))]), _line_act, _line_upd)
+    # (BeamEmissionLine accepts Balmer-alpha only, so its line setter has no second legal value)
+
+    # aliasing: the caller keeps and later mutates the list it assigned -- the scene must not follow
+    def _alias_models_act(L, v):
+        lst = [S.plasma_model(m) for m in v]
+        L.plasma.models = lst
+        lst.append(S.plasma_model(('brems',)))
+        del lst[0]
+    reg('plasma.models(then-mutate-caller-list)', lambda r, c: _other(r, PMODELS, c[P]['models']), _alias_models_act, setc(P, 'models'))
+
+    def _alias_comp_act(L, v):
+        lst = S.species_list(v)
+        L.plasma.composition = lst
+        lst.pop()
+        lst.reverse()
+    reg('plasma.composition(then-mutate-caller-list)', lambda r, c: _other(r, COMPS, c[P]['composition']), _alias_comp_act, setc(P, 'composition'))
+
+    def _alias_bmodels_act(L, v):
+        lst = [S.beam_model(m) for m in v]
+        L.beam.models = lst
+        lst.append(S.beam_model(('bcx', ('C', 5, (8, 7)))))
+        del lst[0]
+    reg('beam.models(then-mutate-caller-list)', lambda r, c: _other(r, BMODELS, c[B]['models']), _alias_bmodels_act, setc(B, 'models'))
+
     reg('beam.integrator', lambda r, c: _other(r, [0.05, 0.04, 0.08], c[B]['integrator_step']),
         lambda L, v: setattr(L.beam, 'integrator', NumericalIntegrator(step=v)), setc(B, 'integrator_step'))
     reg('beam.transform', lambda r, c: _other(r, BEAM_TR, c[B]['transform']),
@@ -307,7 +352,9 @@ def search(ctx, S, M):
         singles.append((nm, v))
         test([(nm, v)], 'single')
         if nm not in ('plasma.models.add', 'beam.models.add'):
-            test([(nm, v), ('plasma.models', PMODELS[0]), ('beam.models', BMODELS[0]), ('laser.models', 1)], 'bare-single', BARE)
+            vb = gen(ctx.rng, BARE)
+            if vb is not None or nm in ('beam.plasma', 'laser.plasma'):
+                test([(nm, vb), ('plasma.models', PMODELS[0]), ('beam.models', BMODELS[0]), ('laser.models', 1)], 'bare-single', BARE)
         test([('obs',), (nm, v)], 'obs-single')
     pairs = 0
     for a in singles:
@@ -346,7 +393,8 @@ PARAM_NODE = {
     'beam.divergence_y': ['Beam.divergence_y.set'], 'beam.element': ['Beam.element.set'],
     'beam.atomic_data': ['Beam.atomic_data.set'], 'beam.plasma': ['Beam.plasma.set'], 'beam.attenuator': ['Beam.attenuator.set'],
     'beam.attenuator.step': ['SingleRayAttenuator.step.set'], 'beam.attenuator.clamp_sigma': ['SingleRayAttenuator.clamp_sigma.set'],
-    'beam.models': ['Beam.models.set'], 'beam.models.add': ['beam.ModelManager.add'], 'beam.integrator': ['Beam.integrator.set'],
+    'beam.models': ['Beam.models.set'], 'beam.models(then-mutate-caller-list)': ['Beam.models.set'],
+    'plasma.models(then-mutate-caller-list)': ['Plasma.models.set'], 'plasma.composition(then-mutate-caller-list)': ['Plasma.composition.set'], 'beam.models.add': ['beam.ModelManager.add'], 'beam.integrator': ['Beam.integrator.set'],
     'beam.transform': ['scenegraph:Beam'], 'beam.parent': ['scenegraph:Beam'],
     'laser.importance': ['Laser.importance.set'], 'laser.laser_spectrum': ['Laser.laser_spectrum.set'],
     'laser.laser_profile': ['Laser.laser_profile.set'], 'laser.plasma': ['Laser.plasma.set'], 'laser.models': ['Laser.models.set'],
@@ -359,7 +407,7 @@ ACCESSOR_CACHE = {'exc': 'cache:Models(ExcitationLine)', 'rec': 'cache:Models(Re
                   'lrp': 'cache:Models(TotalRadiatedPower)', 'gaunt': 'cache:Models(Bremsstrahlung)', 'bcx': 'cache:Models(BeamCXLine)',
                   'bem': 'cache:Models(BeamEmissionLine)', 'stop': 'cache:Attenuation'}
 # mutators after which some model kinds are no longer attached (so their caches cannot be seen to refill)
-MODEL_SET_CHANGERS = ('plasma.models', 'plasma.models.set', 'plasma.models.add', 'beam.models', 'beam.models.add', 'laser.models')
+MODEL_SET_CHANGERS = ('plasma.models(then-mutate-caller-list)', 'beam.models(then-mutate-caller-list)', 'plasma.models', 'plasma.models.set', 'plasma.models.add', 'beam.models', 'beam.models.add', 'laser.models')
 
 
 def _idents(L):
